@@ -31,6 +31,7 @@ type RetryParams struct {
 	Factor     float64  `json:"factor"`
 	Jitter     float64  `json:"jitter"`
 	CancelAtUs int64    `json:"cancel_at_us,omitempty"` // cancel the context at this simulated instant (0 = never)
+	Deadline   bool     `json:"deadline,omitempty"`     // the context ends by a deadline at that instant instead of a cancel call
 	Cache      bool     `json:"cache,omitempty"`
 	Probe      []int    `json:"probe,omitempty"` // attempt numbers for which the policy is asked directly
 	// More: further requests sent through the same client after the first one
@@ -94,6 +95,7 @@ func (p *retryProp) Gen(r *Rand, tier string, idx int) any {
 	rp.Jitter = pick(r, []float64{0, 0.1, 0.1, 0.5, 1})
 	if r.Chance(0.3) {
 		rp.CancelAtUs = int64(r.Range(1, 4000))*1000 + 1
+		rp.Deadline = r.Chance(0.4)
 	}
 	rp.Cache = r.Bool()
 	if r.Chance(0.4) {
@@ -160,6 +162,7 @@ type attemptRec struct {
 	authz     string
 	body      []byte
 	hadBody   bool
+	idx       int // position in order of arrival
 	behaviour string
 	status    int
 	errKind   string
@@ -190,12 +193,16 @@ func (s *retryServer) RoundTrip(req *http.Request) (*http.Response, error) {
 		req.Body.Close()
 	}
 	simrt.Yield("http." + req.Method)
-	if err := req.Context().Err(); err != nil {
-		return nil, err
-	}
 	s.mu.Lock()
 	defer s.mu.Unlock()
-	rec := &attemptRec{at: time.Since(s.start), authz: req.Header.Get("Authorization"), body: body, hadBody: had, req: s.cur}
+	rec := &attemptRec{at: time.Since(s.start), authz: req.Header.Get("Authorization"), body: body, hadBody: had, req: s.cur, idx: len(s.attempts)}
+	if err := req.Context().Err(); err != nil {
+		// handed to the base transport although the context has ended: an attempt all the same
+		rec.errKind = "ctx-ended"
+		rec.token = strings.HasPrefix(req.URL.Path, "/token")
+		s.attempts = append(s.attempts, rec)
+		return nil, err
+	}
 	mk := func(status int, hdr http.Header, b string) (*http.Response, error) {
 		rec.status = status
 		if hdr == nil {
@@ -255,6 +262,46 @@ func (s *retryServer) RoundTrip(req *http.Request) (*http.Response, error) {
 	return mk(200, nil, "ok")
 }
 
+// recordingPolicy hands the real policy's decisions through and notes each pause it
+// asked for, so that the oracle knows when the next attempt is due.
+type recordingPolicy struct {
+	inner  retry.Policy
+	srv    *retryServer
+	mu     sync.Mutex
+	pauses []policyPause
+}
+
+type policyPause struct {
+	after int // number of attempts the server had seen when the decision was taken
+	d     time.Duration
+}
+
+func (p *recordingPolicy) Retry(attempt int, resp *http.Response, err error) (time.Duration, error) {
+	d, rerr := p.inner.Retry(attempt, resp, err)
+	if rerr == nil {
+		p.srv.mu.Lock()
+		n := len(p.srv.attempts)
+		p.srv.mu.Unlock()
+		p.mu.Lock()
+		p.pauses = append(p.pauses, policyPause{after: n, d: d})
+		p.mu.Unlock()
+	}
+	return d, rerr
+}
+
+// pauseBefore returns the pause the policy asked for right before the idx-th attempt
+// (0-based, in order of arrival at the server).
+func (p *recordingPolicy) pauseBefore(idx int) (time.Duration, bool) {
+	p.mu.Lock()
+	defer p.mu.Unlock()
+	for i := len(p.pauses) - 1; i >= 0; i-- {
+		if p.pauses[i].after == idx {
+			return p.pauses[i].d, true
+		}
+	}
+	return 0, false
+}
+
 type oneShot struct{ r io.Reader }
 
 func (o *oneShot) Read(p []byte) (int, error) { return o.r.Read(p) }
@@ -280,8 +327,9 @@ func (p *retryProp) run(rc *RunCtx, rp *RetryParams, info *RunInfo) *Verdict {
 		MinWait:   minWait, MaxWait: maxWait, MaxRetry: rp.MaxRetry,
 	}
 	srv := &retryServer{rp: rp}
+	recPol := &recordingPolicy{inner: policy, srv: srv}
 	client := &auth.Client{
-		Client: &http.Client{Transport: &retry.Transport{Base: srv, Policy: func() retry.Policy { return policy }}},
+		Client: &http.Client{Transport: &retry.Transport{Base: srv, Policy: func() retry.Policy { return recPol }}},
 		Credential: func(ctx context.Context, host string) (auth.Credential, error) {
 			return auth.Credential{Username: retryUser, Password: retryPass}, nil
 		},
@@ -327,7 +375,11 @@ func (p *retryProp) run(rc *RunCtx, rp *RetryParams, info *RunInfo) *Verdict {
 		}
 		ctx, cancel := context.WithCancel(context.Background())
 		defer cancel()
-		if rp.CancelAtUs > 0 {
+		if rp.CancelAtUs > 0 && rp.Deadline {
+			ctx, cancel = context.WithDeadline(context.Background(), srv.start.Add(time.Duration(rp.CancelAtUs)*time.Microsecond))
+			defer cancel()
+			cancelAt = time.Duration(rp.CancelAtUs) * time.Microsecond
+		} else if rp.CancelAtUs > 0 {
 			simrt.Go(func() {
 				time.Sleep(time.Duration(rp.CancelAtUs) * time.Microsecond)
 				simrt.Yield("cancel-timer")
@@ -451,6 +503,9 @@ func (p *retryProp) run(rc *RunCtx, rp *RetryParams, info *RunInfo) *Verdict {
 					return violation("retried-non-retryable", "", "attempt %d of send %d follows a non-retryable answer (%d %s)\n%s", ai+1, si+1, prev.status, prev.errKind, describe())
 				}
 				pause := a.at - prev.at
+				if d, ok := recPol.pauseBefore(a.idx); ok && pause < d {
+					return violation("attempt-before-pause-elapsed", "", "attempt %d of send %d started %v after the previous one although the policy asked for a pause of %v (context ended at %v)\n%s", ai+1, si+1, pause, d, cancelAt, describe())
+				}
 				if pause < minWait || pause > maxWait {
 					return violation("pause-out-of-bounds", "", "pause before attempt %d of send %d was %v, bounds are [%v, %v]\n%s", ai+1, si+1, pause, minWait, maxWait, describe())
 				}
@@ -501,14 +556,17 @@ func (p *retryProp) run(rc *RunCtx, rp *RetryParams, info *RunInfo) *Verdict {
 		}
 		if doErr == nil && returnedAt == cancelAt {
 			// cancelled at the very instant of the answer: either outcome
-		} else if doErr != nil && !errors.Is(doErr, context.Canceled) {
+		} else if doErr != nil && !errors.Is(doErr, context.Canceled) && !errors.Is(doErr, context.DeadlineExceeded) {
 			// the call may have ended by an earlier error already
 			if returnedAt == cancelAt {
 				inPause = true
 				_ = inPause
 			}
-		} else if errors.Is(doErr, context.Canceled) {
+		} else if errors.Is(doErr, context.Canceled) || errors.Is(doErr, context.DeadlineExceeded) {
 			info.Probes["cancelled_during_pause"]++
+			if rp.Deadline {
+				info.Probes["deadline_during_pause"]++
+			}
 			retried = true
 		}
 	}
